@@ -6,6 +6,7 @@ Driver of C10. Payloads (space separated):
 * `R <flag 0|1> <prio>:<fails>:<kid> …` — rules triggered by one event, in declaration order
   (`kid` = the rule adds a child event before it returns). Result
   `exec=<priorities of the started actions, in order> err=<sorted priorities in the error map> kids=<n>`.
+* `S <prio>:<fails>:<kid> …` — the same rules declared as ECAL sinks; the interpreter sets the flag by default.
 * `B <op> …` with `N<p>` NewChildMonitor(p), `A<k>` Activate, `S<k>` Skip, `F<k>` Finish of the
   monitor number `k` (0 = the root monitor). Result: `HighestPriority()` after every op, `P` for an
   assertion panic (the sequence ends there).
@@ -95,6 +96,7 @@ def runCascade (workers : String) (roots : String) : String :=
 def runCase (payload : String) : String :=
   match payload.splitOn " " with
   | "R" :: flag :: rules => runRules flag rules
+  | "S" :: rules => runRules "1" rules
   | "B" :: ops => runBook ops
   | ["K", workers, roots] => runCascade workers roots
   | _ => "bad-payload"
